@@ -32,6 +32,8 @@ impl SwiftField for Field33B {
     where
         Self: Sized,
     {
+        super::swift_utils::require_ascii(input, "Field 33B")?;
+
         // Field33B format: 3!a15d (currency + amount)
         if input.len() < 4 {
             // Minimum: 3 chars currency + 1 digit amount
